@@ -34,6 +34,14 @@ __CPROVER_ensures(gh_qi0 == 0 ==> (gh_rescntX == __CPROVER_old(gh_rescntX) + gh_
 #define SN_COUNT_PRE(this_)
 #define SN_COUNT_POST
 #endif
+/* C20: discarding / awaiting a suspend point never allocates by itself; in coroutine mode the handles go to the per-thread std::deque,
+ * whose push may allocate a node - the open known finding */
+#ifdef CV_CHECK_C20
+#define SN_C20_POST \
+__CPROVER_ensures(gh_qi0 == 0 ==> gh_allocs == __CPROVER_old(gh_allocs))
+#else
+#define SN_C20_POST
+#endif
 #ifdef CV_NO_ORDER
 #define SN_ORDER_POST
 #else
@@ -57,7 +65,7 @@ __CPROVER_ensures(gh_qi0 != 0 ==> (dq_tail == gh_t0 + (gh_cf >> 1) && dq_head ==
 __CPROVER_ensures((gh_qi0 != 0 && gh_DK < gh_t0) ==> dq_trk == __CPROVER_old(dq_trk)) \
 /* normal mode */ \
 __CPROVER_ensures(gh_qi0 == 0 ==> (dq_head == dq_tail && gh_n_resume >= gh_r0 + (gh_cf >> 1) && dq_npush == __CPROVER_old(dq_npush))) \
-SN_ORDER_POST SN_COUNT_POST
+SN_ORDER_POST SN_COUNT_POST SN_C20_POST
 
 #ifndef SN_CF
 #define SN_CF gh_cf
@@ -85,11 +93,15 @@ SN_ORDER_POST SN_COUNT_POST
   __CPROVER_loop_invariant(gh_n_resume >= gh_r0 + (cv_i64)(__begin4 - SN_BASE(this->this))) \
   __CPROVER_loop_invariant(gh_n_resume == gh_r0 + (cv_i64)(__begin4 - SN_BASE(this->this)))  \
   __CPROVER_loop_invariant((gh_RK >= gh_r0 && gh_RK < gh_n_resume) ==> gh_res_trk == gh_Hr) \
-  __CPROVER_loop_invariant(dq_npush == __CPROVER_loop_entry(dq_npush))
+  __CPROVER_loop_invariant(dq_npush == __CPROVER_loop_entry(dq_npush) && gh_allocs == __CPROVER_loop_entry(gh_allocs))
 
 #endif
 #ifdef CV_HAS_sp_suspend_now
-void sp_suspend_now(SP *this_) SN_CONTRACT(this_);
+void sp_suspend_now(SP *this_) SN_CONTRACT(this_)
+#ifdef CV_CHECK_C20
+__CPROVER_ensures(gh_qi0 != 0 ==> gh_allocs == __CPROVER_old(gh_allocs))   /* C20-FINDING the ready queue is a std::deque, which allocates a node every 64 pushes */
+#endif
+;
 #endif
 /* clear() and ~suspend_point() are verified modularly as forwarders to suspend_now(), which in these two units is an abstract
  * callee that records its invocation (its behaviour is the subject of unit suspend_now). */
@@ -160,6 +172,9 @@ __CPROVER_ensures(gh_DK < gh_t0 ==> dq_trk == __CPROVER_old(dq_trk))
 __CPROVER_ensures(dq_tail == gh_t0 + AS_M || dq_tail == gh_t0 + AS_M + 1)
 #ifndef CV_NO_ORDER
 __CPROVER_ensures((dq_tail == gh_t0 + AS_M + 1 && gh_DK == gh_t0 + AS_M) ==> dq_trk == h)     /* awaiting coroutine appended last */
+#endif
+#ifdef CV_CHECK_C20
+__CPROVER_ensures(gh_allocs == __CPROVER_old(gh_allocs))   /* C20-FINDING co_await on a suspend point queues the other handles on the std::deque, which may allocate a node */
 #endif
 #ifdef CV_COUNT_X
 /* order-free (C06): transfer target + queue entries account for every carried handle exactly as often as it was carried, plus the
